@@ -375,6 +375,8 @@ func init() {
 			job(sc(sim.Rel2Cfg("c10-rel2-k3-single", 3, 0, 8, fBld|fMove|fRel|fRet|fRelX|fIll, oBasic).P("C10")), pick(tier, 4, 5), 2),
 			job(sc(sim.CoreCfg("c10-core-k3", 3, 1, nil, fMove|fVal|fBNew|fBExch|fReg|fIll|fQ, oBasic).P("C10")), pick(tier, 4, 6), 2),
 			job(sc(sim.RelCfg("c10-rel-k3-batch-reg", 0, 3, 0, 8, fBld|fBNew|fBSet|fBExch|fBRem|fRelX|fReg|fReset|fIll|fQ, oBasic).P("C10")), pick(tier, 4, 5), 2),
+			// illegal accessor calls on open queries (Relation for a component that is not the entity's relation component)
+			job(sc(sim.Rel2Cfg("c10-rel2-k3-query-accessors", 3, 0, 8, fBld|fMove|fRel, oDeep).P("C10")), pick(tier, 3, 4), 1),
 			// illegal calls in a locked world, rejected registrations, out-of-range query indices (also decided by C09)
 			job(scAny(&sim.LockCfg{ID: "c10-lock-q2", Q: 2, Probes: 1}), pick(tier, 5, 7), 1),
 		}
